@@ -141,23 +141,10 @@ func c17Callbacks(c *Ctx, r *Report, pkgRel string) map[string]bool {
 		ok := len(stores) > 0
 		for _, s := range stores {
 			_, fr := get(s.fn)
-			// state at the store instruction = state of its block's entry refined; use the frame's
-			// recorded store
-			found := false
-			for _, o := range fr.objs {
-				for path, recs := range o.stores {
-					_ = path
-					for _, rec := range recs {
-						if stI, isSt := rec.instr.(*ssa.Store); isSt && stI.Val == s.val && c.pos(stI.Pos()) == s.pos {
-							found = true
-							if !nonNilAt(fr, rec.state, rec.val, nil) {
-								ok = false
-							}
-						}
-					}
-				}
-			}
-			if !found {
+			// the state on entry to the store's block (the guards that dominate it) must prove the
+			// stored value non-nil
+			state := fr.blockIn[s.instr.Block().Index]
+			if len(state) > 0 && !nonNilAt(fr, state, fr.val(s.val), nil) {
 				ok = false
 			}
 		}
@@ -186,7 +173,9 @@ func c17Callbacks(c *Ctx, r *Report, pkgRel string) map[string]bool {
 				invariant[fname] = true
 				r.ok("R17.1", id, fmt.Sprintf("field invariant: all %d stores put a proven non-nil function into the field and every allocation sets it", len(stores)), "-", true)
 			} else {
-				r.fail("R17.1", id, "func-typed field can hold nil: some store is not proven non-nil or an allocation leaves it unset", "-", "", "field-may-be-nil:"+fname)
+				// no invariant: every call through this field must then be guarded on its own path
+				// (decided per call site below); an optional, nil-by-default hook is legitimate
+				r.info("R17.1", id, "no non-nil invariant for this func-typed field (some store is not proven non-nil or an allocation leaves it unset): calls through it must test it", "-")
 			}
 		} else if ok {
 			invariant[fname] = true
